@@ -1,4 +1,6 @@
 import PoorModel.Prelude
+import PoorModel.Json
+import PoorModel.Base64
 /-
 Model of poorwsgi.session: `hidden` (XOR with the sha512 key stream), the value pipeline
 of PoorSession.write / load, and the cookie attribute state machine
@@ -106,5 +108,42 @@ def step (s : St) : Op → St
 
 /-- what a `header()` call emits for the session cookie -/
 def headerAttrs (s : St) : Attrs := (write s).attrs
+
+/-! ### the session object over its life: data, assignments, the cookie value -/
+
+/-- the codec with JSON and base64 made concrete: only the compression module remains a parameter -/
+def jsonCodec (compress : Bytes → Bytes) (decompress : Bytes → Option Bytes) : Codec Poor.Json.J :=
+  { dumps := Poor.Json.dumpBytes, loads := Poor.Json.loadBytes,
+    isDict := fun d => match d with | .obj _ => true | _ => false,
+    compress := compress, decompress := decompress,
+    b64enc := Poor.Base64.encode, b64dec := Poor.Base64.decode }
+
+/-- a session without compression (`compress=None`): every piece concrete -/
+def plainCodec : Codec Poor.Json.J := jsonCodec id some
+
+/-- the session object with its data and the value its cookie currently carries -/
+structure DSt (Data : Type) where
+  st : St
+  data : Data
+  value : Str            -- '' until the first write
+
+/-- what a handler does with a session object -/
+inductive DOp (Data : Type) where
+  | set (d : Data)       -- `session.data = d` / any change of the dictionary
+  | write | header | destroy
+
+def dstep (c : Codec Data) (key : Bytes) (s : DSt Data) : DOp Data → DSt Data
+  | .set d => { s with data := d }
+  | .write => { s with st := write s.st, value := writeValue c key s.data }
+  | .header => { s with st := write s.st, value := writeValue c key s.data }      -- `header()` writes, always
+  | .destroy => { s with st := destroy s.st }
+
+def drun (c : Codec Data) (key : Bytes) (s : DSt Data) (ops : List (DOp Data)) : DSt Data := ops.foldl (dstep c key) s
+
+/-- the data after a history: the last assignment, the initial data if there was none -/
+def lastData (d0 : Data) : List (DOp Data) → Data
+  | [] => d0
+  | .set d :: ops => lastData d ops
+  | _ :: ops => lastData d0 ops
 
 end Poor.Session
